@@ -121,6 +121,13 @@ def cases(tier, inst):
                     for r in range(1, nf + 1):
                         for fs in itertools.combinations(range(nf), r):
                             yield ("freshhier", shape, deco_t, before, "kw", fs)
+    # (k) a constrained predicate-form variable next to FURTHER conditions that are false or do not mention it on one
+    #     side (a disjunction with a constant, with a condition on another variable, a negated conjunction), the variable
+    #     itself or only an attribute of it selected: the field constraint restricts the variable in every row
+    for ck in PFCONDS:
+        for sel in ("x", "x.p", "x.p+y"):
+            for kw in ((("q", 1),), (("q", 2),), (("q", 1), ("flag", True))):
+                yield ("pfcond", ck, sel, kw)
     # (i) the supplied domain is itself a symbolic expression: another variable, or another query (its solutions)
     for outer in ("Base", "Sub", "USub", "Hand"):
         for inner in ("Base", "Sub"):
@@ -472,7 +479,59 @@ def lab(kind, res):
     return [repr(Q.norm(o)) for o in res]
 
 
+_xp, _yp = A(X, "p"), A(Y, "p")
+PFCONDS = {
+    "or_const": ("or", ("cmp", "gt", _xp, L(10)), ("const", "True")),
+    "or_y": ("or", ("cmp", "gt", _xp, L(10)), ("cmp", "ge", _yp, L(2))),
+    "or_y_first": ("or", ("cmp", "ge", _yp, L(2)), ("cmp", "gt", _xp, L(10))),
+    "or_x_y": ("or", ("cmp", "eq", _xp, L(2)), ("cmp", "ge", _yp, L(3))),
+    "not_and_const": ("not", ("and", ("cmp", "lt", _xp, L(10)), ("const", "False"))),
+    "not_and_y": ("not", ("and", ("cmp", "lt", _xp, L(10)), ("cmp", "lt", _yp, L(2)))),
+    "and_or": ("and", ("cmp", "ge", _xp, L(1)), ("or", ("cmp", "gt", _xp, L(10)), ("t", A(Y, "flag")))),
+}
+PF_ROWS = tuple((("p", p), ("q", q), ("flag", p >= 2)) for p, q in ((1, 1), (2, 2), (3, 1), (2, 1), (1, 2)))
+PF_WORLD = (("D", "Item", PF_ROWS), ("E", "Item", ((("p", 1), ("flag", False)), (("p", 2), ("flag", True)), (("p", 3), ("flag", False)))))
+
+
+def run_pfcond(case, inst):
+    _, ck, selk, kw = case
+    cond = PFCONDS[ck]
+    pform = ("bound", "x", ("pform", "Item", "D", (), tuple((f, L(v)) for f, v in kw)))
+    vy = ("y", "let", "Item", "E")
+    uses_y = "y" in Q.cond_vars(cond) or selk == "x.p+y"
+    sel = {"x": (pform,), "x.p": (A(pform, "p"),), "x.p+y": (A(pform, "p"), Y)}[selk]
+    q = ("Q", "an", "setof", sel, (cond,), (vy,) if uses_y else ())
+    explicit = ("Q", "an", "setof", {"x": (X,), "x.p": (_xp,), "x.p+y": (_xp, Y)}[selk],
+                tuple(("cmp", "eq", A(X, f), L(v)) for f, v in kw) + (cond,),
+                (("x", "let", "Item", "D"),) + ((vy,) if uses_y else ()))
+    world = build_world(PF_WORLD, inst)
+    ref = Q.Ref(world, inst)
+    exp = sorted({repr(tuple(Q.norm(ref.value(s_, env)) for s_ in explicit[3])) for env in ref.solutions(explicit)})
+    out = []
+    for query in (q, explicit):
+        try:
+            obj, b = Q.build(query, world, inst, predeclare=(vy,) if uses_y else ())
+            sel_built = b.sel[query]
+            for _ in range(2):
+                out.append(sorted({repr(tuple(Q.norm(r[s_]) for s_ in sel_built)) for r in obj.evaluate()}))
+        except Exception as e:
+            out.append(exc_obs(e))
+            out.append(exc_obs(e))
+    return out, exp, len(world["D"]) * (len(world["E"]) if selk == "x.p+y" else 1)
+
+
 def run_case(case, inst):
+    if case[0] == "pfcond":
+        out, exp, n = run_isolated(lambda: run_pfcond(case, inst))
+        names = ("predicate-form", "predicate-form:second-evaluation", "explicit", "explicit:second-evaluation")
+        res = {"ok": all(o == exp for o in out), "nontrivial": 0 < len(exp) < n, "transitions": 4,
+               "tags": ["family=pfcond", f"cond={case[1]}", f"sel={case[2]}"], "outcome": f"pfcond:{len(exp)}"}
+        for name, o in zip(names, out):
+            if o != exp:
+                k = f"exc:{o[1]}" if is_exc(o) else ("missing" if set(exp) - set(o) else ("extra" if set(o) - set(exp) else "count"))
+                res.update(sig=f"pfcond:{name}:{k}/{case[1]}/sel={case[2]}", obs=o, exp=exp)
+                break
+        return res
     if case[0] == "mutated":
         got1, exp1, got2, exp2 = run_isolated(lambda: run_mutated(case, inst))
         res = {"ok": not is_exc(got1) and got1 == exp1 and got2 == exp2, "nontrivial": bool(exp2), "transitions": 2,
